@@ -150,6 +150,22 @@ PROPS["C13"] = {"theorems": ["Sched.noninterference", "Sched.same_result", "C13_
                               "trusted); otherwise as for the other properties"}
 
 
+def _run_schema(pid: str, tier: str, seed: int, spec: dict, scale: float = 1.0, salt: str = "") -> dict:
+    from . import schema_stream
+    return schema_stream.run(pid, tier, seed, spec, scale, salt)
+
+
+def _replay_schema(case: dict) -> List[str]:
+    from . import schema_stream
+    return schema_stream.replay_case(case)
+
+
+PROPS["C10"] = {"theorems": [], "run": _run_schema, "replay": _replay_schema,
+                "rule": "validator trees over every built-in validator and predicate kind (supported and unsupported), every "
+                        "admitted parameter type, records with 0-4 keys, unions, optionals, recursive Lazy; to_json_schema and "
+                        "to_named_json_schema with arbitrary names / ref locations; non-trivial = a schema was produced"}
+
+
 def run_core(pid: str, tier: str, seed: int, spec: dict, scale: float = 1.0, salt: str = "") -> dict:
     n = int((spec["quick_n"] if tier == "quick" else spec["thorough_n"]) * scale)
     opts = dict(spec.get("opts", {}))
